@@ -33,7 +33,7 @@ from vsim.world import Deadlock, HarnessError, StepCap, Violation, World
 PROPERTY = "C14"
 LEVEL = "fault_enumeration"
 RULE = (
-    "base scenario of one close path (socket adapter, stream endpoint, async TCP client idle / with a back-pressured sender / still connecting / built around a given socket and never used, "
+    "base scenario of one close path (socket adapter, stream endpoint, async TCP client idle / with a back-pressured sender / still connecting (through wait_connected() or through a send_packet() holding the send lock) / built around a given socket and never used, "
     "server-side client with or without a sender holding the lock, teardown of the low-level server's connection task (handler returns / raises / peer half-closes / serving task group cancelled, with or without unsent bytes buffered against a peer that does not read), TLS aclose with a peer that answers close_notify promptly / late / never / FIN / RST, "
     "TLS wrap with a stalled / garbage / cut handshake or a server_hostname the ssl module rejects, stapled stream and datagram transports with a failing or slow first half, wrapped-transport errors at call n); "
     "fault = task.cancel() on the closing task before loop iteration j, for every j of the base run; a case is one (scenario, j); "
@@ -396,7 +396,7 @@ def _x_client(world: World, scn: dict, cancel_at: int | None) -> int:
             p.reading = False
         peers.append(p)
 
-    if scn["state"] == "connecting":
+    if scn["state"] in ("connecting", "connecting-sender"):
         net.connect_script = lambda sock, addr: ("never", 0.0) if scn["connect"] == "never" else ("ok", scn["connect_delay"] / 64, on_peer)
     else:
         net.connect_script = lambda sock, addr: ("ok", 0.0, on_peer)
@@ -416,6 +416,16 @@ def _x_client(world: World, scn: dict, cancel_at: int | None) -> int:
         connector = None
         if scn["state"] == "given-socket":
             pass
+        elif scn["state"] == "connecting-sender":
+            # the lazy connection is performed by a send_packet() call, i.e. under the send lock the close has to wait for
+            async def first_send() -> None:
+                try:
+                    await client.send_packet("first")
+                except (OSError, asyncio.CancelledError, Exception):
+                    pass
+
+            sender = asyncio.get_running_loop().create_task(first_send(), name="sender")
+            await asyncio.sleep(scn["pre"] / 64)
         elif scn["state"] == "connecting":
             async def connect() -> None:
                 try:
@@ -461,7 +471,7 @@ def _x_client(world: World, scn: dict, cancel_at: int | None) -> int:
 
 
 def _h_client(world: World) -> None:
-    state = world.pick("state", ["idle", "sending", "connecting", "given-socket"])
+    state = world.pick("state", ["idle", "sending", "connecting", "given-socket", "connecting-sender"])
     scn = {
         "state": state,
         "cap": world.pick("cap", [1 << 20, 64, 1024]),
